@@ -14,6 +14,8 @@ structure Pool where
   suspended : List Ctr := []
   numCompleted : Nat := 0
   tickTimes : List Nat := []
+  killSnap : List (Nat × Nat × Nat × Bool) := []   -- observer: (cid, usage, allocation, finished) of the running containers entering the OOM killer
+  victims : List Nat := []                          -- observer: containers killed by it, in kill order
 deriving Repr, Inhabited
 
 def Pool.fresh (cpus ram : Nat) : Pool := { capC := cpus, capR := ram, availC := cpus, availR := ram }
@@ -154,15 +156,23 @@ def killVictims (w : Store) (capR : Nat) (act : List Ctr) (cons : Int) : List Ct
 
 def oomCandidates (act : List Ctr) : List Ctr := act.filter (fun c => !c.completed && c.mem > 0)
 
+def killSnapOf (act : List Ctr) : List (Nat × Nat × Nat × Bool) := act.map (fun c => (c.cid, c.mem, c.ram, c.completed))
+
+def killedIn (act : List Ctr) (v : Ctr) : Bool := match findCtr act v.cid with | some c => c.err | none => false
+
 /-- `_run_out_of_memory_killer` -/
 def oomKiller (w : Store) (p : Pool) : Except Err (Store × Pool) :=
+  let snap := killSnapOf p.active
+  let v1 := (p.active.filter (fun c => c.mem > c.ram)).map (·.cid)
   match killIndividual w p.active p.consumed with
   | .error e => .error e
   | .ok (w1, act1, cons1) =>
-    if cons1 ≤ p.capR then .ok (w1, { p with active := act1, consumed := cons1 }) else
+    if cons1 ≤ p.capR then .ok (w1, { p with active := act1, consumed := cons1, killSnap := snap, victims := v1 }) else
     match killVictims w1 p.capR act1 cons1 (sortDesc (oomCandidates act1)) with
     | .error e => .error e
-    | .ok (w2, act2, cons2) => .ok (w2, { p with active := act2, consumed := cons2 })
+    | .ok (w2, act2, cons2) =>
+      .ok (w2, { p with active := act2, consumed := cons2, killSnap := snap,
+                        victims := v1 ++ ((sortDesc (oomCandidates act1)).filter (killedIn act2)).map (·.cid) })
 
 /-! ### phase 6: collect finished containers -/
 
